@@ -308,7 +308,9 @@ func init() {
 				}
 				f := c32Run(c)
 				r.Eval(1)
-				r.Nontrivial(1)
+				if len(c.Runs)+len(c.Base) > 0 {
+					r.Nontrivial(1)
+				}
 				if f != nil {
 					r.Report(f)
 					r.Outcome(f.Sig)
